@@ -350,7 +350,8 @@ def hyperrectangle_check_intersection(
     :return: True if the hyperrectangles intersect, False otherwise.
     :rtype: bool
     """
-    if np.any(lower1 >= upper2) or np.any(upper1 <= lower2):
+    # Closed hyperrectangles that share a face (or a corner) do intersect.
+    if np.any(lower1 > upper2) or np.any(upper1 < lower2):
         return False
 
     return True
